@@ -68,6 +68,11 @@ def run(ctx):
                 M = [list(r) for r in zip(*M)]
             items.append(("%d %d %s" % (_c18.SUBS["camion"], 0, mat_line(M)), "camion", None))
         _c18.evaluate(ctx, items)
+    ctx.stream("camion_cert", gen.camion_cert_lines(rng.fork("camion_cert") if hasattr(rng, "fork") else ctx.rng.fork("camion_cert"),
+                                                    1500 if q else 40000),
+               "camion signing / test on matrices with certified regular support of every size: the output must be a scaling of the "
+               "certified TU matrix, the test says yes exactly for scalings (Camion's theorem: CamionUnique.v)",
+               describe=lambda c: gen.CAMION_CERT_CODES.get(c, str(c)), nontrivial=lambda l, r: True)
     ctx.stream("camion", big, "camion: large network blocks (>= 100 x 100)", describe=lambda c: CODES.get(c, str(c)),
                nontrivial=lambda l, r: True)
     ctx.stream("camion", lines, "camion: exhaustive small, random, structured", describe=lambda c: CODES.get(c, str(c)),
